@@ -61,7 +61,7 @@ Proof. vm_compute. reflexivity. Qed.
 Definition res_agree (a b : res) : bool := match a, b with Ok x, Ok y => str_eqb x y | _, _ => false end.
 
 Lemma py_reserved_any_path : forallb (fun w => res_agree (strop_py py_default_idtype w) (strop_py ns_dir_idtype w)) (sc_reserved cfg_py) = true.
-Proof. vm_compute. reflexivity. Qed.
+Proof. vm_cast_no_check (eq_refl true). Qed.
 
 Lemma py_pattern_free ty t : ty = py_default_idtype \/ ty = ns_dir_idtype -> pattern_lang LPy ty t = false.
 Proof. intros [->| ->]; vm_compute; reflexivity. Qed.
@@ -182,12 +182,12 @@ Qed.
 Theorem guard_injective_c : forall t1 t2, guard_c t1 = guard_c t2 ->
   macrofy (sid_of LC) c_stropping (full_name t1) = macrofy (sid_of LC) c_stropping (full_name t2)
   /\ dec_str (ti_major t1) = dec_str (ti_major t2) /\ dec_str (ti_minor t1) = dec_str (ti_minor t2).
-Proof. intros. eapply guard_injective_gen; eauto. Qed.
+Proof. unfold guard_c. intros t1 t2. apply guard_injective_gen. Qed.
 
 Theorem guard_injective_cpp : forall t1 t2, guard_cpp t1 = guard_cpp t2 ->
   macrofy (sid_of LC) c_stropping (full_name t1) = macrofy (sid_of LC) c_stropping (full_name t2)
   /\ dec_str (ti_major t1) = dec_str (ti_major t2) /\ dec_str (ti_minor t1) = dec_str (ti_minor t2).
-Proof. intros. eapply guard_injective_gen; eauto. Qed.
+Proof. unfold guard_cpp. intros t1 t2. apply guard_injective_gen. Qed.
 
 Theorem namespace_braces_balanced : forall ns,
   balanced [] (open_ns_cpp ns ++ close_ns_cpp ns) = true
